@@ -520,7 +520,12 @@ pub fn run(ctx: &mut Ctx) {
             cfg.max_fields = 2;
         }
         let prog = ProgGen::new(&mut rng, cfg).gen_program();
-        let out = sim::simulate(&prog);
+        let mut out = sim::simulate(&prog);
+        if case % 6 == 1 {
+            // type names are optional: well-formed all the same
+            let n = reg::drop_type_names(&mut rng, &mut out.registry, 0.5);
+            ctx.count("fault_free_type_names_dropped", n);
+        }
         let label = format!("fault-free#{case}");
         ctx.begin_case(&label);
         let d = crate::settingsgen::random_sdesc(&mut rng, &out.registry, &crate::settingsgen::SettingsOpts { extra_substitutes: false, specific_derives: true, compact_as: true });
